@@ -40,7 +40,7 @@ Qed.
 
 Lemma simulate_is_run fx steps s : exists sched, fst (simulate fx steps s) = run (step fx) sched s.
 Proof.
-  revert s; induction steps as [|[[[t out] woke] occ] r IH]; intros s; cbn [simulate]; [exists []; reflexivity|].
+  revert s; induction steps as [|[t out woke occ] r IH]; intros s; cbn [simulate]; [exists []; reflexivity|].
   destruct (run_until_is_run St (step fx) at_site fuel (Z.to_nat t) s) as [s1 H1].
   set (a := run_until (step fx) at_site fuel (Z.to_nat t) s) in *.
   destruct (settle_is_run fx (ids_of a) a) as [s2 H2].
@@ -51,11 +51,11 @@ Qed.
 
 Lemma list_eqb_trip a b : list_eqb trip_eqb a b = true -> a = b.
 Proof.
-  revert b; induction a as [|[[x1 x2] x3] a IH]; intros [|[[y1 y2] y3] b]; cbn [list_eqb]; try discriminate; auto.
+  revert b; induction a as [|[x1 x2 x3] a IH]; intros [|[y1 y2 y3] b]; cbn [list_eqb]; try discriminate; auto.
   intros H. apply andb_prop in H. destruct H as [H1 H2]. rewrite (IH _ H2).
-  unfold trip_eqb, pair_eqb in H1. cbn [fst snd] in H1.
+  unfold trip_eqb in H1.
   apply andb_prop in H1. destruct H1 as [H1 H3]. apply andb_prop in H1. destruct H1 as [H1 H4].
-  apply Z.eqb_eq in H1, H3, H4. subst. reflexivity.
+  apply Z.eqb_eq in H1. apply Z.eqb_eq in H3. apply Z.eqb_eq in H4. subst. reflexivity.
 Qed.
 
 Lemma count_flat_map P (l : list (nat * thread)) :
@@ -82,9 +82,9 @@ Qed.
 
 Lemma simulate_occ_ok steps : forall s sf,
   Inv s -> simulate false steps s = (sf, true) -> s_bad (sh sf) = false ->
-  forallb (fun st : stepobs => match st with (_, _, _, occ) => occ_ok occ end) steps = true.
+  forallb (fun st => occ_ok (so_occ st)) steps = true.
 Proof.
-  induction steps as [|[[[t out] woke] occ] r IH]; intros s sf I Hsim Hb; cbn [forallb]; auto.
+  induction steps as [|[t out woke occ] r IH]; intros s sf I Hsim Hb; cbn [forallb so_occ]; auto.
   cbn [simulate] in Hsim.
   set (a := run_until (step false) at_site fuel (Z.to_nat t) s) in *.
   assert (Ia : Inv a).
@@ -104,7 +104,7 @@ Qed.
 
 Lemma agreeing_unflagged_case_exclusive_l : forall progs steps f,
   model_agrees (Case progs steps f) = true -> known_class (Case progs steps f) = 0 ->
-  forallb (fun st : stepobs => match st with (_, _, _, occ) => occ_ok occ end) steps = true.
+  forallb (fun st => occ_ok (so_occ st)) steps = true.
 Proof.
   intros progs steps f Ha Hk. unfold model_agrees, known_class in *.
   destruct (simulate false steps (start progs)) as [sf ok] eqn:E.
